@@ -529,6 +529,9 @@ def shape_typed(item, ob):
     ob.absorb_engine(E)
 
 def run_shape(item, ob):
+    if item[0] == 'pair':
+        from props import equiv
+        equiv.MIR = MIR; return equiv.run_item(item, ob)
     fam, payload = item
     {'istype': shape_istype, 'convert': shape_convert, 'dnum': shape_destructure_num, 'dseq': shape_destructure_seq, 'pattern': shape_pattern, 'typed': shape_typed}[fam](payload, ob)
 
@@ -558,6 +561,8 @@ def main(tier, seed, t0):
     for tname, stmts in TYPED_STMTS.items():
         for si in range(len(stmts)):
             for zk in (('Int', 'List') if tier == 'quick' else ('Int', 'List', 'Null', 'Stream')): items.append(('typed', (tname, si, zk)))
+    from props import equiv
+    equiv.MIR = MIR; equiv.preparse('C12'); items += equiv.items_for('C12')          # statement-level equivalences (props/equiv.py family C12)
     merged, per = pmap(run_shape, items, tier)
     return finish(PROP, tier, seed, merged, t0, th=th,
         kernels=['eval.rs: is_type, assign, assign_all, assign_all_basic, insert_declare', 'core.rs: type_of, call_type1 (numeric arms), to_type, Obj equality',
